@@ -288,8 +288,14 @@ pub fn icc_carrier_modular(rng: &mut Rng, profile: &[u8]) -> Option<Vec<u8>> {
 /// A small valid Modular image with a preview frame in front of the first frame (image and preview
 /// both fit one group, where the frame layout of the preview is undisputed).
 pub fn preview_carrier_modular(rng: &mut Rng) -> Option<Vec<u8>> {
+    preview_carrier_modular_sized(rng, 40)
+}
+
+/// `max_dim` > 256 gives multi-group images with a one-group preview (jxl-oxide sizes the preview
+/// frame from the image header: outside the judged domain, used by experiments only).
+pub fn preview_carrier_modular_sized(rng: &mut Rng, max_dim: u32) -> Option<Vec<u8>> {
     let grey = rng.bool();
-    let (w, h) = (rng.u32range(1, 40), rng.u32range(1, 40));
+    let (w, h) = (rng.u32range(max_dim.min(max_dim / 2 + 1), max_dim), rng.u32range(max_dim.min(max_dim / 2 + 1), max_dim));
     let (pw, ph) = (rng.u32range(1, 24), rng.u32range(1, 24));
     let n_ec = rng.urange(0, 2);
     let ec: Vec<ExtraChannelInfo> = (0..n_ec).map(|_| ExtraChannelInfo::new(EcType::Alpha { associated: rng.bool() }, BitDepth::Int { bits: 8 }, 0, "")).collect();
